@@ -362,9 +362,12 @@ def check_handlers(run, db):
         for f in ctors:
             n += 1
 
-            def calls_handler(e):
+            vals = common.single_assignment_locals(f)
+
+            def calls_handler(e, vals=vals, hvar=hvar):
                 t = top_term(e)
-                return t is not None and t.get('k') == 'call' and t.get('indirect') and hvar in tstr(t.get('fn'))
+                # the handler may be loaded into a local first: `auto h = handler.load(); h(info, amount);`
+                return t is not None and t.get('k') == 'call' and t.get('indirect') and hvar in tstr(common.expand_locals(t.get('fn'), vals))
             inst = '%s [%s]' % (f.display, db.config)
             if flow.must_pass_through(f, calls_handler):
                 run.ok('R-THROW.2', inst, f.loc, 'constructor calls the registered handler on every path')
